@@ -9,7 +9,6 @@ EXPLANATION = ('Effect / value-flow rules on constructors and seeding methods: R
                'R8.3 a value that may encapsulate a generator (type parameter bounded by Proposal, which offers set_seed) and is cloned from one prototype into '
                'every chain passes through set_seed(., per-chain value) first; R8.4 within a chain the acceptance seed is seed + k (k >= 1 for every index) and '
                'differs from the proposal seed; R8.5 HMC draws one [n_chains, dim] momentum block and n_chains uniforms from its single stream (no expand of a smaller draw).')
-FLOORS = {'obligations': 31}   # counted on the reference tree; fewer instantiated obligations is reported, never passed silently
 TECHNIQUE = 'effect / ownership analysis of constructors and seeding methods over value-flow terms (affine seed forms, clone provenance)'
 
 
@@ -167,12 +166,11 @@ def hmc(ctx, A):
     foundu = 'no uniform draw loop'
     if len(unis) == 1 and len(unis[0].loops) == 1:
         ls = E.loop_by_uid(ev, unis[0].loops[0])
-        pushes = [k for k in ls.lh if T.is_app(ls.next[k], 'push') and ls.next[k][2][0] is ls.lh[k] and ls.next[k][2][1] is unis[0].res]
-        foundu = 'loop n=%s, %d collecting place(s)' % (show(ls.n), len(pushes))
-        if len(pushes) == 1 and any(ls.n is n_ for n_ in nch) and ls.init[pushes[0]] is T.app('array') and not ls.exits:
-            lx = ls.lx[pushes[0]]
+        seqs = [seq for seq, el in collected(ls) if el is unis[0].res]
+        foundu = 'loop n=%s, %d collecting place(s)' % (show(ls.n), len(seqs))
+        if len(seqs) == 1 and any(ls.n is n_ for n_ in nch) and not ls.exits:
             for td in tds:
-                if td[2][0] is lx and any(td[2][1] is T.app('array', n_) for n_ in nch):
+                if td[2][0] is seqs[0] and any(td[2][1] is T.app('array', n_) for n_ in nch):
                     oku = True
     ctx.check('C08.R8.5.uniform', anchor, 'uniform', oku, expected='n_chains StandardUniform draws from self.rng collected in order into the [n_chains] acceptance tensor', found=foundu, sp=b['sp'],
               why='each chain needs its own acceptance variate')
